@@ -433,7 +433,7 @@ pub fn gen_c16<W: Write>(out: &mut W, thorough: bool, seed: u64) {
         writeln!(out, "cvnodes 9").unwrap();
         writeln!(out, "cvad 9").unwrap();
         // documents as written by to_json: of the form the document theorems quantify over, and accepted
-        crate::load::emit_written(out, &mut r, 5);
+        crate::load::emit_written(out, &mut r, 12);
         // splines of the three types, solved and unsolved
         let kind = ["f", "1", "2"][i % 3];
         let k = r.range(2, 4) as usize;
